@@ -125,6 +125,56 @@ def pyAnd (a : PyM Bool) (b : PyM Bool) : PyM Bool := do
 def pyOr (a : PyM Bool) (b : PyM Bool) : PyM Bool := do
   if (← a) then pure true else b
 
+/-- Python `dict` (insertion-ordered) / `collections.defaultdict`: `dflt` is the default factory's call (`none` for a
+plain dict, whose `d[k]` raises `KeyError` on a missing key) -/
+structure PyDict (κ ν : Type) where
+  items : List (κ × ν)
+  dflt : Option (PyM ν)
+
+namespace PyDict
+variable {κ ν μ : Type} [DecidableEq κ]
+
+/-- `defaultdict(factory)` -/
+def emptyDefault (fac : PyM ν) : PyDict κ ν := ⟨[], some fac⟩
+
+def lookup : List (κ × ν) → κ → Option ν
+  | [], _ => none
+  | (k', v) :: m, k => if k' = k then some v else lookup m k
+
+def replace : List (κ × ν) → κ → ν → List (κ × ν)
+  | [], k, v => [(k, v)]
+  | (k', v') :: m, k, v => if k' = k then (k, v) :: m else (k', v') :: replace m k v
+
+/-- `d[k]` as an expression: the stored value; on a missing key a `defaultdict` calls its factory, stores the result
+under `k` (at the end: insertion order) and returns it, a plain dict raises `KeyError`.  Returns the dict as it is
+afterwards. -/
+def getItem (d : PyDict κ ν) (k : κ) : PyM (ν × PyDict κ ν) :=
+  match lookup d.items k with
+  | some v => .ok (v, d)
+  | none =>
+    match d.dflt with
+    | none => .error .keyError
+    | some fac => do
+      let v ← fac
+      pure (v, ⟨d.items ++ [(k, v)], d.dflt⟩)
+
+/-- functional update of the path `d[k]` (the key keeps its position; a new key goes to the end) -/
+def setItem (d : PyDict κ ν) (k : κ) (v : ν) : PyDict κ ν := ⟨replace d.items k v, d.dflt⟩
+
+/-- `{k: f(k, v) for k, v in d.items()}`: a plain dict with the same keys in the same order -/
+def mapValsM (d : PyDict κ ν) (f : κ → ν → PyM μ) : PyM (PyDict κ μ) := do
+  let items ← d.items.mapM (fun kv => do pure (kv.1, ← f kv.1 kv.2))
+  pure ⟨items, none⟩
+
+end PyDict
+
+/-- `for x in xs: body` where the body updates the mutable objects `s` in scope (an exception ends the loop) -/
+def pyFor {α σ : Type} : List α → σ → (α → σ → PyM σ) → PyM σ
+  | [], s, _ => pure s
+  | x :: xs, s, f => do
+    let s' ← f x s
+    pyFor xs s' f
+
 /-- `assert c` -/
 def pyAssert (c : Bool) : PyM Unit := if c then pure () else .error .assertionError
 
